@@ -75,6 +75,11 @@ type Scenario struct {
 	// follows the root's actions whose index is ShardIdx modulo ShardN (the union
 	// of all shards is the full search; states may be visited by several shards).
 	ShardIdx, ShardN int
+	// Audits is the number of canonical-key collisions that are audited: the
+	// first time two different concrete worlds hash to the same canonical key,
+	// the whole action menu is run from both and the canonical successors and
+	// response classes must agree (run-time check of the abstraction in canon.go).
+	Audits int
 	// Need lists coverage classes that must be hit (vacuity guard).
 	Need []string
 }
@@ -89,6 +94,7 @@ type Result struct {
 	Exhaustive  bool
 	CapHit      string
 	Validated   int // distinct states whose shortest trace was replayed on a fresh instance
+	Audited     int // canonical-key collisions audited (differential successors)
 	Violations  []Violation
 	Cover       map[string]int
 	Samples     [][]string
@@ -125,6 +131,12 @@ func Explore(sc Scenario, deadline time.Time) Result {
 	init0 := init.Clone() // the initial world is pure harness data: built once, cloned for every replay
 	seen := map[string]bool{}
 	sigSeen := map[string]bool{}
+	firstWorld := map[string]*world.World{} // concrete representative of (some) canonical states, for the audit
+	audits := sc.Audits
+	if audits == 0 {
+		audits = 60
+	}
+	firstPath := map[string][]string{}
 	k0 := hashKey(init.Canon(sat))
 	seen[k0] = true
 	frontier := []node{{w: init, key: k0}}
@@ -181,8 +193,21 @@ outer:
 					}
 				}
 				k := hashKey(w2.Canon(sat))
+				if seen[k] && res.Audited < audits {
+					if w1 := firstWorld[k]; w1 != nil {
+						res.Audited++
+						if d := auditPair(sc, st, sat, w1, w2); d != "" {
+							report(Violation{Rule: "harness/canonical-abstraction", Detail: "two concrete states with the same canonical key have different futures (" + d + "); first reached by " + strings.Join(firstPath[k], " ; ")}, full)
+						}
+						delete(firstWorld, k)
+					}
+				}
 				if !seen[k] {
 					seen[k] = true
+					if len(firstWorld) < 4000 {
+						firstWorld[k] = w2
+						firstPath[k] = full
+					}
 					if sc.State != nil {
 						sc.State(step)
 					}
@@ -239,6 +264,37 @@ outer:
 	sort.Strings(res.Vacuous)
 	res.WallS = time.Since(t0).Seconds()
 	return res
+}
+
+// auditPair runs the whole menu from two concrete worlds that share a canonical
+// key and compares response classes and canonical successors.
+func auditPair(sc Scenario, st *world.Stack, sat time.Duration, w1, w2 *world.World) string {
+	a1, a2 := sc.Actions(st, w1), sc.Actions(st, w2)
+	if len(a1) != len(a2) {
+		return fmt.Sprintf("menus differ in size: %d vs %d", len(a1), len(a2))
+	}
+	for i := range a1 {
+		if a1[i].Name != a2[i].Name {
+			return "menus differ: " + a1[i].Name + " vs " + a2[i].Name
+		}
+		c1, c2 := w1.Clone(), w2.Clone()
+		o1 := a1[i].Run(st, c1)
+		o2 := a2[i].Run(st, c2)
+		if sc.Model != nil {
+			sc.Model(&Step{S: st, Pre: w1, Act: a1[i], Obs: o1, Post: c1, Report: func(Violation) {}, Count: func(int, string) {}})
+			sc.Model(&Step{S: st, Pre: w2, Act: a2[i], Obs: o2, Post: c2, Report: func(Violation) {}, Count: func(int, string) {}})
+		}
+		if (o1 == nil) != (o2 == nil) {
+			return "action " + a1[i].Name + ": one is a request, the other is not"
+		}
+		if o1 != nil && (o1.Status != o2.Status || (o1.Location == "") != (o2.Location == "") || (o1.Panic == "") != (o2.Panic == "")) {
+			return fmt.Sprintf("action %s: responses differ (%d %q vs %d %q)", a1[i].Name, o1.Status, o1.Location, o2.Status, o2.Location)
+		}
+		if k1, k2 := hashKey(c1.Canon(sat)), hashKey(c2.Canon(sat)); k1 != k2 {
+			return "action " + a1[i].Name + ": canonical successors differ"
+		}
+	}
+	return ""
 }
 
 // Replay executes a trace of action names from the scenario's initial state on
